@@ -470,6 +470,40 @@ func c13Run(c *core.Ctx) {
 	}
 	recS()
 
+	// ---------------- P3 / N4 streams with one very long line (beyond any fixed
+	// line buffer: 70000 and 1100000 bytes), examined in full and with large limits
+	{
+		for li, n := range []int{70000, 1100000} {
+			long := `{"pad":"` + strings.Repeat("x", n) + `"}`
+			for at := 0; at < 3; at++ {
+				if !c.Mine(uint64(li*3+at)) || c.Expired() {
+					continue
+				}
+				lines := []string{`{"a":1}`, `[2]`, `{"c":3}`}
+				lines[at] = long
+				doc := []byte(strings.Join(lines, "\n") + "\n")
+				pos.In, pos.Strs[0] = doc, "application/x-ndjson"
+				c.R.States++
+				for _, l := range []uint32{0, uint32(len(doc)), uint32(len(doc) + 1), uint32(len(doc) - 3)} {
+					pos.Limit = l
+					c.R.Transitions++
+					c.R.Evals++
+					c.R.Nontrivial++
+					c.Check(pos)
+				}
+				c.SampleCase("P3:stream-with-very-long-line", pos)
+				// a damaged complete line behind the long one
+				bad := []byte(strings.Join(append(append([]string{}, lines...), `{"d":`, `{"e":5}`), "\n") + "\n")
+				neg.In = bad
+				for _, l := range []uint32{0, uint32(len(bad) + 1)} {
+					neg.Limit = l
+					c.R.Transitions++
+					c.R.Evals++
+					c.Check(neg)
+				}
+			}
+		}
+	}
 	// ---------------- N1 exhaustive converse for csv/tsv
 	alphaN1 := []byte("a,\t\n#")
 	n1 := 8
